@@ -1,4 +1,4 @@
-import VncModel.Threads.Wake
+import VncModel.Threads.Sock
 import VncModel.Threads.Skeleton
 import VncModel.Gen.C13
 /-!
@@ -12,7 +12,7 @@ rfbClientListMutex (L), cursorMutex (C).  One step = one LOCK/UNLOCK/WAIT/TSIGNA
 the code (plus the plain code up to the next such point; racy reads of `sock`/`state` that steer
 control are separate silent steps).  `succ s t` lists the successors of thread `t` (empty = blocked or
 terminated), `Step`/`Reach` quantify over ALL schedules, any number of clients, unbounded length.
-The model follows the code with fixes/C13-01 … C13-04 applied (docs/C13.md); `skeleton_matches` ties
+The model follows the code with fixes/C13-01 … C13-05 applied (docs/C13.md); `skeleton_matches` ties
 it to the working tree on every run, the harness ties it by trace inclusion.
 
 What is proved here (every theorem is about every reachable state, i.e. every schedule):
@@ -54,6 +54,8 @@ What is proved here (every theorem is about every reachable state, i.e. every sc
   higher owned mutex, so every mutex wait leads to a thread that can run (Threads/Progress.lean).
 * `shutdown_wakeup_not_lost`, `output_join_cannot_hang` — the wake-up clientInput sends its output thread
   before joining it cannot be lost (Threads/Wake.lean).
+* `socket_closed_only_under_outputMutex` — the descriptor of a client is closed only by a thread that owns
+  that client's outputMutex (no writer of another thread is inside rfbWriteExact then).
 * `gone_once` — clientGoneHook runs at most once per record, never before rfbClientConnectionGone
   reaches it, exactly once by the time the record is freed (Threads/Gone.lean).
 
@@ -220,6 +222,29 @@ thread of the system can take a step -/
 theorem output_join_cannot_hang {s : State} (h : Reach s) (c : Nat) (hi : (s.cl c).ipc = .x3) :
     (s.cl c).opc = .exited ∨ ∃ t, ∃ x, x ∈ succ s t :=
   (output_join_progresses h c hi).2.2.2
+
+/-- **the client socket is closed only under outputMutex**: the step that closes client c's descriptor
+(`cl->sock = -1`, label `sock c`) is taken by a thread that owns outputMutex(c); so no other thread is
+inside a write critical section of c (rfbWriteExact reads the descriptor after LOCK(outputMutex)) at
+that moment, and while a thread holds outputMutex(c) the descriptor of c cannot be closed by anybody
+else: a write performed under O(c) goes to the descriptor c has at that moment -/
+theorem socket_closed_only_under_outputMutex {s s' : State} (h : Reach s) (t : Tid) (c : Nat)
+    (hs : (Lbl.sock c, s') ∈ succ s t) :
+    own s .O c = some t ∧ ∀ t', t' ≠ t → (MCls.O, c) ∉ heldOf s t' := by
+  have key : own s .O c = some t := by
+    cases t with
+    | app => exact (sock_label_inp hs (fun _ => by simp)).elim
+    | lis => exact (sock_label_inp hs (fun _ => by simp)).elim
+    | out d => exact (sock_label_inp hs (fun _ => by simp)).elim
+    | inp d =>
+      have hd := (sock_label_inp' hs).1
+      have hpc := (sock_label_inp' hs).2
+      rw [hd]
+      exact (own_iff_table h (.inp c) .O c).2 (by simp [heldOf, hpc, heldI, mkey, MCls.perClient])
+  refine ⟨key, fun t' hne hm => ?_⟩
+  have := (own_iff_table h t' .O c).2 (by simpa [mkey, MCls.perClient] using hm)
+  rw [key] at this
+  exact hne (Option.some.inj this).symm
 
 /-!
 ## Not proved (full-strength statements)
